@@ -530,6 +530,64 @@ class HeapOps(HeapExecutor):
                         out.append(r)
         return out
 
+    def st_While(self, s, st):
+        """while loop cut by the sidecar invariant (partial correctness unless `decreases` is given)."""
+        if s.orelse:
+            raise Unsupported('while-else')
+        fi = self.cur_func[-1]
+        root = getattr(self, 'root', None)
+        c = root[1] if (root is not None and root[0] is fi and len(self.cur_func) == 1) else self.contracts.get(fi.fid)
+        ordn = self.loop_ordinal(s)
+        inv_src = c.invariants.get(ordn) if c is not None else None
+        if inv_src is None:
+            raise Unsupported('while loop %d of %s has no invariant in the sidecar (line %s)' % (ordn, fi.fid, s.lineno))
+        if self.writes_heap(s.body):
+            raise Unsupported('while body writes the heap (line %s)' % s.lineno)
+        g0, extra0 = self.eval_spec(inv_src, st, env_extra=dict(st.env))
+        st = st.copy()
+        st.obls.append(('inv[loop%d].init' % ordn, list(st.pc) + list(extra0), g0, inv_src))
+        h = st.copy()
+        for name in sorted(self.assigned_names(s)):
+            h.env[name] = const(fresh_name('hv_' + name), VAL)
+        types = getattr(c, 'loop_var_types', {}) or {}
+        for name, names in types.items():
+            if name in h.env:
+                v = h.env[name]
+                r = self.rv(v)
+                h._add(Or(Is('VNone', v), And(Is('VRef', v), Le(intlit(1), r), Lt(r, self.nxt(h)),
+                                              Or(*[Eq(cls_of(r), intlit(self.cid(n))) for n in names]))))
+                h._add(Not(Is('VUnset', v)))
+        gi, extrai = self.eval_spec(inv_src, h, env_extra=dict(h.env))
+        h = h.assume(And(gi, *extrai))
+        out = []
+        if h is None:
+            return out
+        for o, cnd in self.ev_cond(s.test, h):
+            if not o.running:
+                out.append(o)
+                continue
+            ex_ = o.assume(Not(cnd))
+            if ex_ is not None:
+                out.append(ex_)
+            body = o.assume(cnd)
+            if body is None:
+                continue
+            for r in self.exec_block(s.body, body):
+                if r.status in ('run', 'cont'):
+                    r = r.copy()
+                    r.status = 'run'
+                    gn, extran = self.eval_spec(inv_src, r, env_extra=dict(r.env))
+                    r.obls.append(('inv[loop%d].preserved' % ordn, list(r.pc) + list(extran), gn, inv_src))
+                    r.status = 'cut'
+                    out.append(r)
+                elif r.status == 'brk':
+                    r = r.copy()
+                    r.status = 'run'
+                    out.append(r)
+                else:
+                    out.append(r)
+        return out
+
     def writes_heap(self, stmts):
         for st_ in stmts:
             for node in ast.walk(st_):
